@@ -17,7 +17,16 @@ func ctorDropsParam(f *ssa.Function) (checked int, dropped []string) {
 	if f.Signature.Recv() != nil || len(f.Blocks) == 0 {
 		return 0, nil
 	}
-	// the struct built: an Alloc of a struct type marked "complit" whose address (or value) is returned
+	// the structs built: Allocs of a struct type marked "complit" whose address (or value) is returned. A parameter
+	// counts as kept when ANY returned literal of that struct type stores it (a constructor may return a shorter
+	// literal on a branch where the parameter is known to be the zero value).
+	type pair struct {
+		st  *types.Struct
+		prm *ssa.Parameter
+		fld int
+	}
+	kept := map[pair]bool{}
+	var order []pair
 	for _, b := range f.Blocks {
 		for _, ins := range b.Instrs {
 			al, ok := ins.(*ssa.Alloc)
@@ -62,26 +71,32 @@ func ctorDropsParam(f *ssa.Function) (checked int, dropped []string) {
 					if !strings.EqualFold(fld.Name(), prm.Name()) || !types.Identical(fld.Type(), prm.Type()) || isErrorType(prm.Type()) {
 						continue // (an error parameter next to an `Err` member is a rewrap, not a constructor argument)
 					}
-					checked++
-					ok := false
+					key := pair{st, prm, i}
+					if _, seen := kept[key]; !seen {
+						kept[key] = false
+						order = append(order, key)
+					}
 					for _, v := range stores[i] {
 						if dependsOnValue(v, prm) {
-							ok = true
+							kept[key] = true
 						}
 						// a map or list filled element by element from the parameter (normalised copies)
 						if mm, isMap := stripConv(v).(*ssa.MakeMap); isMap && mm.Referrers() != nil {
 							for _, r := range *mm.Referrers() {
 								if mu, isUpd := r.(*ssa.MapUpdate); isUpd && (dependsOnValue(mu.Key, prm) || dependsOnValue(mu.Value, prm)) {
-									ok = true
+									kept[key] = true
 								}
 							}
 						}
 					}
-					if !ok {
-						dropped = append(dropped, prm.Name())
-					}
 				}
 			}
+		}
+	}
+	for _, key := range order {
+		checked++
+		if !kept[key] {
+			dropped = append(dropped, key.prm.Name())
 		}
 	}
 	return checked, dropped
